@@ -3,6 +3,8 @@ package spec
 import (
 	"go/ast"
 	"go/token"
+	"go/types"
+	"regexp"
 	"sort"
 	"strings"
 
@@ -50,7 +52,7 @@ func runC16(r *an.Run) {
 	p := r.Prog
 
 	r.Obl("status-table", "TABLE",
-		"decidePaymentStatus returns, for each of the 16 valuations of (inflight, settled, htlc failed, payment failed), the status of the documented table: InFlight whenever an attempt is in flight; else Succeeded whenever one settled; else Failed when the payment failed; else InFlight when an attempt failed; else Initiated. The four flags are set only from h.Failure / h.Settle / reason",
+		"decidePaymentStatus returns, for each of the 16 valuations of (inflight, settled, htlc failed, payment failed), the status of the documented table: InFlight whenever an attempt is in flight; else Succeeded whenever one settled; else Failed when the payment failed; else InFlight when an attempt failed; else Initiated. The four flags are set only from h.Failure / h.Settle / reason, by one loop over the attempts parameter that is never left early; parameters and loop variable are never reassigned; nothing returns before the loop and the table is evaluated from the end of the loop (every branch between the loop and the switch counts)",
 		"a payment with a settled attempt reported failed is paid again by the caller; a failed one reported in flight is never retried", 20,
 		func(o *an.Obl) {
 			f := p.Func(pd + "decidePaymentStatus")
@@ -86,17 +88,44 @@ func runC16(r *an.Run) {
 					o.FailAt(f.ID+"#flag-writers-"+name, f.Where(f.Body.Pos()), "%s has %d assignments, expected one", name, k)
 				}
 			}
-			// decision switch
+			// the flags are gathered by one loop over the attempts parameter,
+			// which looks at every attempt; the parameters and the loop
+			// variable stand for the caller's values throughout
+			var fixed []string
+			for _, pv := range f.Params(false) {
+				if pv != nil && pv.Name() != "" && pv.Name() != "_" {
+					fixed = append(fixed, pv.Name())
+				}
+			}
+			hds := c15RangeHeads(f, `.`)
+			if len(hds) != 1 || f.Canon(hds[0].Node.(*ast.RangeStmt).X) != "$p0" {
+				o.FailAt(f.ID+"#attempt-loop", f.Where(f.Body.Pos()), "expected exactly one loop in decidePaymentStatus, over the attempts parameter; found %d", len(hds))
+				return
+			}
+			head := hds[0]
+			for _, kv := range []ast.Expr{head.Node.(*ast.RangeStmt).Key, head.Node.(*ast.RangeStmt).Value} {
+				if id, ok := kv.(*ast.Ident); ok && id.Name != "_" {
+					fixed = append(fixed, id.Name)
+				}
+			}
+			notReassigned(o, f, fixed...)
+			c15LoopLeftOnlyBy(o, f, head, "attempts", nil)
+			// nothing is decided before the loop ...
+			for v := range f.Graph().Reach(f.Graph().Entry, nil, map[*flow.Vertex]bool{head: true}) {
+				if v.Kind == flow.KReturn {
+					o.FailAt(f.ID+"#early-exit", f.Where(v.Pos()), "decidePaymentStatus returns at %s before the attempts were examined", f.Where(v.Pos()))
+				}
+			}
+			// ... and the table is evaluated from the end of the loop: every
+			// branch between the loop and the documented switch is part of it
 			var start *flow.Vertex
-			for _, v := range f.Graph().V {
-				if v.Kind == flow.KCond {
-					if id, ok := v.Node.(*ast.Ident); ok && id.Name == "inflight" {
-						start = v
-					}
+			for _, e := range head.Out {
+				if e.Kind == flow.ERangeDone {
+					start = e.To
 				}
 			}
 			if start == nil {
-				o.FailAt(f.ID+"#decision", f.Where(f.Body.Pos()), "cannot find the decision switch")
+				o.FailAt(f.ID+"#decision", f.Where(f.Body.Pos()), "cannot find the end of the attempt loop")
 				return
 			}
 			names := []string{"inflight", "htlcSettled", "htlcFailed", "paymentFailed"}
@@ -152,7 +181,7 @@ func runC16(r *an.Run) {
 				}
 				o.Site("inflight,settled,htlcFailed,paymentFailed=%s -> %v", key, outs)
 				if len(outs) != 1 || outs[0] != want {
-					o.FailAt(f.ID+"#row-"+key, f.Where(start.Pos()), "for (inflight, settled, htlc failed, payment failed) = %s the status is %v, the documented table says %s", key, outs, want)
+					o.FailAt(f.ID+"#row-"+key, f.Where(head.Pos()), "for (inflight, settled, htlc failed, payment failed) = %s the status is %v, the documented table says %s", key, outs, want)
 				}
 			}
 		})
@@ -204,7 +233,7 @@ func runC16(r *an.Run) {
 		})
 
 	r.Obl("status-and-state-derivation", "WHO",
-		"MPPayment.Status and MPPayment.State are written only by setState, from decidePaymentStatus(m.HTLCs, m.FailureReason) and below `sentAmt <= m.Info.Value` with RemainingAmt = total - sent; SentAmt skips failed attempts only; decidePaymentStatus is called only by setState and the SQL resolution shortcut; both stores' payment loaders call setState",
+		"MPPayment.Status and MPPayment.State are written only by setState, from decidePaymentStatus(m.HTLCs, m.FailureReason) and below `sentAmt <= m.Info.Value` with RemainingAmt = total - sent; SentAmt skips failed attempts only; decidePaymentStatus is called only by setState and the SQL resolution shortcut; both stores' payment loaders call setState; m.Status is the unmodified result of decidePaymentStatus, m.State a literal whose five fields are exactly len(m.InFlightHTLCs()), m.Info.Value - SentAmt()#0, SentAmt()#1, TerminalInfo()#0 != nil, TerminalInfo()#1 != nil (setState's locals are never reassigned); SentAmt returns (sum of receiver amounts, sum of fees) in that order; TerminalInfo returns a settled attempt of m.HTLCs or the failure reason; no MPPayment literal sets Status or State (legacy duplicate payments aside); the SQL shortcut marks the attempt at each row's position with Settle for a settled row, Failure for a failed one, nothing only for NULL, and passes that list and the stored (Valid) failure reason",
 		"a status set by hand, or computed from another attempt list, is not 'exactly the documented function of the attempts and failure reason'", 10,
 		func(o *an.Obl) {
 			ss := p.Func(pd + "MPPayment.setState")
@@ -216,11 +245,88 @@ func runC16(r *an.Run) {
 							o.FailAt(f.ID+"#writes-"+fld, w.Where(), "%s writes MPPayment.%s", f.ID, fld)
 							continue
 						}
-						guarded(o, f, w, an.CmpX(an.LocalNamed("sentAmt"), an.LE, an.LocalNamed("totalAmt"), "sentAmt <= totalAmt"))
+						guarded(o, f, w, an.CmpX(canonTerm(`^\$recv\.SentAmt\(\)$`), an.LE, canonTerm(`^\$recv\.Info\.Value$`), "sentAmt <= totalAmt"))
 						mustPass(o, f, "decidePaymentStatus", f.Calls(an.CalleeIs(pd+"decidePaymentStatus"), false), an.OkErrNil, []an.Site{w})
+						// what is written: the decided status itself / the state
+						// built from the payment's own sums and terminal info
+						as, isAs := w.Node.(*ast.AssignStmt)
+						if !isAs || as.Tok != token.ASSIGN || len(as.Lhs) != 1 || len(as.Rhs) != 1 || !strings.HasPrefix(f.Canon(as.Lhs[0]), "$recv.") {
+							o.FailAt(f.ID+"#write-shape-"+fld, w.Where(), "setState writes %s by `%s`, expected a plain assignment to the receiver's field", fld, an.Text(w.Node))
+							continue
+						}
+						c := f.Canon(as.Rhs[0])
+						o.Site("m.%s = %s", fld, c)
+						switch fld {
+						case "Status":
+							if c != pd+"decidePaymentStatus($recv.HTLCs, $recv.FailureReason)" {
+								o.FailAt(f.ID+"#status-value", w.Where(), "m.Status is set to %s, expected the (unmodified) result of decidePaymentStatus(m.HTLCs, m.FailureReason)", c)
+							}
+						case "State":
+							u, _ := ast.Unparen(as.Rhs[0]).(*ast.UnaryExpr)
+							var keys map[string]ast.Expr
+							if u != nil && u.Op == token.AND {
+								if cl, ok := ast.Unparen(u.X).(*ast.CompositeLit); ok {
+									keys = c15LitKeys(cl)
+								}
+							}
+							if keys == nil {
+								o.FailAt(f.ID+"#state-value", w.Where(), "m.State is set to %s, expected a keyed MPPaymentState literal", c)
+								break
+							}
+							want := map[string]string{
+								"NumAttemptsInFlight": "len($recv.InFlightHTLCs())",
+								"RemainingAmt":        "($recv.Info.Value - $recv.SentAmt())",
+								"FeesPaid":            "$recv.SentAmt()#1",
+								"HasSettledHTLC":      "($recv.TerminalInfo() != nil)",
+								"PaymentFailed":       "($recv.TerminalInfo()#1 != nil)",
+							}
+							for k, wv := range want {
+								v, ok := keys[k]
+								if !ok {
+									o.FailAt(f.ID+"#state-field-missing-"+k, w.Where(), "the state literal does not set %s", k)
+									continue
+								}
+								if got := f.Canon(v); got != wv {
+									o.FailAt(f.ID+"#state-field-"+k, f.Where(v.Pos()), "State.%s = %s, expected %s (a local that is redefined or modified after its definition prints as $v)", k, got, wv)
+								}
+							}
+						}
 					}
 				}
 			}
+			// no payment is built with a status / state of the builder's choosing
+			for _, cl := range p.CompositeLitsOf(p.LookupType("payments/db", "MPPayment")) {
+				id := "<package level>"
+				if cl.Fn != nil {
+					id = cl.Fn.ID
+				}
+				lit := cl.Node.(*ast.CompositeLit)
+				keys := c15LitKeys(lit)
+				o.Site("MPPayment literal in %s at %s", id, cl.Where)
+				if id == pd+"fetchDuplicatePayment" {
+					continue // legacy duplicate payments are stored with their status
+				}
+				if keys == nil && len(lit.Elts) > 0 {
+					o.FailAt(id+"#payment-literal", cl.Where, "%s builds an MPPayment with positional fields (Status and State included)", id)
+					continue
+				}
+				for _, k := range []string{"Status", "State"} {
+					if v, ok := keys[k]; ok {
+						o.FailAt(id+"#literal-sets-"+k, cl.Where, "%s builds an MPPayment with %s: %s; only setState derives it", id, k, an.Text(v))
+					}
+				}
+			}
+			var ssLocals []string
+			for _, v := range ss.Graph().V {
+				if as, ok := v.Node.(*ast.AssignStmt); ok && as.Tok == token.DEFINE {
+					for _, l := range as.Lhs {
+						if id, ok := l.(*ast.Ident); ok && id.Name != "_" && id.Name != "err" {
+							ssLocals = append(ssLocals, id.Name)
+						}
+					}
+				}
+			}
+			notReassigned(o, ss, ssLocals...)
 			for _, s := range ss.Calls(an.CalleeIs(pd+"decidePaymentStatus"), false) {
 				a := ss.ArgCanon(s)
 				if a[0] != "$recv.HTLCs" || a[1] != "$recv.FailureReason" {
@@ -280,6 +386,101 @@ func runC16(r *an.Run) {
 			}
 			if k != 1 {
 				o.FailAt(sa.ID+"#sum", sa.Where(sa.Body.Pos()), "SentAmt has %d accumulation sites", k)
+			}
+			// which sum is which: the first result is the one that grew by the
+			// receiver amounts, the second the one that grew by the fees; both
+			// only ever grow by those
+			sumObj := map[string]types.Object{}
+			for _, v := range sa.Graph().V {
+				as, ok := v.Node.(*ast.AssignStmt)
+				if !ok || as.Tok != token.ADD_ASSIGN || len(as.Lhs) != 1 {
+					continue
+				}
+				id, ok := as.Lhs[0].(*ast.Ident)
+				if !ok {
+					continue
+				}
+				switch sa.Canon(as.Rhs[0]) {
+				case "$elem($recv.HTLCs).Route.ReceiverAmt()":
+					sumObj["sent"] = sa.Info().Uses[id]
+					c15PinnedWrites(o, sa, id.Name, "", `^\+= \$elem\(\$recv\.HTLCs\)\.Route\.ReceiverAmt\(\)$`)
+				case "$elem($recv.HTLCs).Route.TotalFees()":
+					sumObj["fees"] = sa.Info().Uses[id]
+					c15PinnedWrites(o, sa, id.Name, "", `^\+= \$elem\(\$recv\.HTLCs\)\.Route\.TotalFees\(\)$`)
+				}
+			}
+			for _, s := range sa.Returns() {
+				rs := s.Node.(*ast.ReturnStmt)
+				o.Site("SentAmt returns %s", an.Text(rs))
+				if len(rs.Results) != 2 || sumObj["sent"] == nil || sumObj["fees"] == nil || !c15IdentIs(sa.Info(), rs.Results[0], sumObj["sent"]) || !c15IdentIs(sa.Info(), rs.Results[1], sumObj["fees"]) {
+					o.FailAt(sa.ID+"#result-order", s.Where(), "SentAmt returns `%s`, expected (sum of receiver amounts, sum of fees)", an.Text(rs))
+				}
+			}
+			// TerminalInfo: a settled attempt of the payment's own list, else
+			// the payment's failure reason
+			ti := p.Func(pd + "MPPayment.TerminalInfo")
+			for _, s := range ti.Returns() {
+				rs := s.Node.(*ast.ReturnStmt)
+				if len(rs.Results) != 2 {
+					continue
+				}
+				a, b := ti.Canon(rs.Results[0]), ti.Canon(rs.Results[1])
+				o.Site("TerminalInfo returns (%s, %s)", a, b)
+				switch {
+				case a == "&$elem($recv.HTLCs)" && b == "nil":
+					guarded(o, ti, s, an.IsNil(an.FieldPath(nil, "Settle"), false, "h.Settle != nil"))
+				case a == "nil" && b == "$recv.FailureReason":
+				default:
+					o.FailAt(ti.ID+"#results", s.Where(), "TerminalInfo returns (%s, %s), expected (a settled attempt, nil) or (nil, the failure reason)", a, b)
+				}
+			}
+			// the SQL shortcut feeds decidePaymentStatus with one attempt per
+			// resolution row (Settle for a settled row, Failure for a failed
+			// one, neither for NULL) and the stored failure reason
+			cr := p.Func(pd + "computePaymentStatusFromResolutions")
+			if dcs := cr.Calls(an.CalleeIs(pd+"decidePaymentStatus"), false); needExactly(o, cr, "decidePaymentStatus", dcs, 1) {
+				listArg, reasonArg := callArg(dcs[0], 0), callArg(dcs[0], 1)
+				lid, isID := ast.Unparen(listArg).(*ast.Ident)
+				if c := cr.Canon(listArg); !isID || c != "make([]HTLCAttempt, len($p0))" {
+					o.FailAt(cr.ID+"#attempt-list", dcs[0].Where(), "the shortcut decides from %s (%s), expected the list with one attempt per resolution row", an.Text(listArg), c)
+				} else {
+					c15PinnedWrites(o, cr, lid.Name, `^:= make\(\[\]HTLCAttempt, len\(\$p0\)\)$`)
+				}
+				for fld, st := range map[string]string{"Settle": "HTLCAttemptResolutionSettled", "Failure": "HTLCAttemptResolutionFailed"} {
+					ws := cr.Assigns(an.Field(pd+"HTLCAttempt", fld, nil), false)
+					if !needExactly(o, cr, "write of HTLCAttempt."+fld, ws, 1) {
+						continue
+					}
+					as := ws[0].Node.(*ast.AssignStmt)
+					if c := cr.Canon(as.Lhs[0]); c != "make([]HTLCAttempt, len($p0))[$key($p0)]."+fld {
+						o.FailAt(cr.ID+"#row-target-"+fld, ws[0].Where(), "%s is recorded on %s, expected the attempt at the row's position", fld, c)
+					}
+					if u, ok := ast.Unparen(as.Rhs[0]).(*ast.UnaryExpr); !ok || u.Op != token.AND || as.Tok != token.ASSIGN {
+						o.FailAt(cr.ID+"#row-value-"+fld, ws[0].Where(), "%s is set by `%s`, expected a non-nil marker", fld, an.Text(as))
+					}
+					guarded(o, cr, ws[0], an.Cmp(canonTerm(`^(HTLCAttemptResolutionType\()?\$elem\(\$p0\)\.Int32\)?$`), an.EQ, an.PkgVar("payments/db", st), "the row's resolution type == "+st))
+				}
+				// a row is left without mark (in flight) only when its resolution is NULL
+				var marks []an.Site
+				for _, fld := range []string{"Settle", "Failure"} {
+					marks = append(marks, cr.Assigns(an.Field(pd+"HTLCAttempt", fld, nil), false)...)
+				}
+				everyIterationOr(o, cr, `^\$p0$`, marks, an.Truth(canonTerm(`^\$elem\(\$p0\)\.Valid$`), false, "the row's resolution is NULL"), "Settle / Failure mark")
+				names := c15LocalsIn(cr, reasonArg)
+				if len(names) != 1 {
+					o.FailAt(cr.ID+"#reason-arg", dcs[0].Where(), "the shortcut passes %s as failure reason", an.Text(reasonArg))
+				}
+				for _, nm := range names {
+					for _, w := range c15PinnedWrites(o, cr, nm, "", `^= &\$v:payments/db\.FailureReason$`) {
+						if w.rhs == nil {
+							continue
+						}
+						guarded(o, cr, w.site, an.Truth(canonTerm(`^\$p1\.Valid$`), true, "failReason.Valid"))
+						for _, src := range c15LocalsIn(cr, w.rhs) {
+							c15PinnedWrites(o, cr, src, `^:= FailureReason\(\$p1\.Int32\)$`, `^& $`)
+						}
+					}
+				}
 			}
 			// callers of decidePaymentStatus
 			for _, f := range p.Funcs(false, "payments/db") {
@@ -384,7 +585,7 @@ func runC16(r *an.Run) {
 		})
 
 	r.Obl("store-gates-dominate-writes", "PATH",
-		"in both stores, inside the transaction closure: InitPayment's writes come after initializable() succeeded on the status of the stored payment (when one exists); RegisterAttempt's insert after Registrable() and verifyAttempt() succeeded on the payment loaded in that transaction; SettleAttempt/FailAttempt's write after updatable() succeeded; the Delete* methods' deletions after removable() succeeded; each gate's receiver is defined solely by the status/payment loader of that transaction",
+		"in both stores, inside the transaction closure: InitPayment's writes come after initializable() succeeded on the status of the stored payment (when one exists); RegisterAttempt's insert after Registrable() and verifyAttempt() succeeded on the payment loaded in that transaction; SettleAttempt/FailAttempt's write after updatable() succeeded; the Delete* methods' deletions after removable() succeeded; each gate's receiver is defined solely by the status/payment loader of that transaction, is not rewritten field-wise between loader and gate, and the SQL status shortcut is fed the resolutions and the failure reason of the same payment row; every function body of these methods that contains one of the tabled write calls contains the gates",
 		"a gate evaluated on anything but the stored payment (or skipped on one path) admits exactly the re-initiation, over-registration or late update the property forbids", 24,
 		func(o *an.Obl) {
 			type gate struct {
@@ -412,6 +613,30 @@ func runC16(r *an.Run) {
 			for _, g := range table {
 				root := p.Func(g.fn)
 				found := 0
+				// every function body of the method (its own and each closure's)
+				// that contains one of the tabled write calls also contains the
+				// gates: a second transaction that writes has its own gate
+				for _, lf := range append([]*an.Func{root}, root.Lits...) {
+					var wn []string
+					for _, w := range g.writes {
+						if !strings.HasPrefix(w, "assign:") {
+							wn = append(wn, w)
+						}
+					}
+					if len(wn) == 0 {
+						continue
+					}
+					ws := lf.Calls(an.CalleeNamed(wn...), false)
+					if len(ws) == 0 {
+						continue
+					}
+					for _, gname := range g.gates {
+						if len(lf.Calls(an.CalleeNamed(gname), false)) == 0 {
+							o.FailAt(g.fn+"#ungated-writes-"+gname, ws[0].Where(), "%s writes (%s) in a function body that does not evaluate the %s gate", lf.ID, an.Text(ws[0].Node), gname)
+						}
+					}
+					o.Site("%s: %d write calls share their body with the gates %v", lf.ID, len(ws), g.gates)
+				}
 				for _, lf := range root.Lits {
 					for _, gname := range g.gates {
 						gs := lf.Calls(an.CalleeNamed(gname), false)
@@ -502,6 +727,56 @@ func runC16(r *an.Run) {
 							// survives a retried transaction is not the stored payment
 							if lds := lf.Calls(an.CalleeIs(defs...), false); len(lds) > 0 {
 								mustPass(o, lf, "the payment loader", lds, an.OkErrNil, []an.Site{gsite})
+								// the loader is asked about the stored payment of this
+								// transaction: attempts and failure reason of one and
+								// the same row
+								for _, ld := range lds {
+									la := lf.ArgCanon(ld)
+									o.Site("%s: loader %s%v", g.fn, an.CalleeID(lf.Info(), ld.Node.(*ast.CallExpr)), la)
+									if an.CalleeID(lf.Info(), ld.Node.(*ast.CallExpr)) != pd+"computePaymentStatusFromResolutions" {
+										continue
+									}
+									m := regexp.MustCompile(`^(.+)\.resolutionTypes\[(.+)\.ID\]$`).FindStringSubmatch(la[0])
+									if m == nil || la[1] != m[2]+".FailReason" {
+										o.FailAt(g.fn+"#loader-args-"+gname, ld.Where(), "the status is computed from (%s, %s), expected the batch-loaded resolutions and the failure reason of the same payment row", la[0], la[1])
+									}
+								}
+								// and what the loader returned is what the gate sees: the
+								// subject's fields are not rewritten in this closure
+								subjObj := lf.Info().Uses[id]
+								ast.Inspect(lf.Body, func(n ast.Node) bool {
+									as, ok := n.(*ast.AssignStmt)
+									if !ok {
+										return true
+									}
+									for _, l := range as.Lhs {
+										e := ast.Unparen(l)
+										if _, plain := e.(*ast.Ident); plain {
+											continue
+										}
+										for {
+											switch x := ast.Unparen(e).(type) {
+											case *ast.SelectorExpr:
+												e = x.X
+												continue
+											case *ast.IndexExpr:
+												e = x.X
+												continue
+											case *ast.StarExpr:
+												e = x.X
+												continue
+											case *ast.SliceExpr:
+												e = x.X
+												continue
+											}
+											break
+										}
+										if rid, ok := ast.Unparen(e).(*ast.Ident); ok && subjObj != nil && lf.Info().Uses[rid] == subjObj {
+											o.FailAt(g.fn+"#gate-subject-modified-"+gname, lf.Where(as.Pos()), "`%s` rewrites the loaded %s inside the transaction: the %s gate no longer sees the stored payment", an.Text(as), id.Name, gname)
+										}
+									}
+									return true
+								})
 							} else if len(defs) > 0 {
 								o.FailAt(g.fn+"#gate-loaded-elsewhere-"+gname, gsite.Where(), "%s is evaluated on %s, which is loaded outside the transaction closure", gname, id.Name)
 							}
@@ -547,7 +822,7 @@ func runC16(r *an.Run) {
 		})
 
 	r.Obl("resolution-belongs-to-the-gated-payment", "PATH",
-		"SQLStore.SettleAttempt and FailAttempt record a resolution (queries keyed by the attempt index alone) only after checkAttemptResolvable succeeded for the ID of the payment whose status was gated and the same attempt ID; checkAttemptResolvable returns nil only for an attempt of that payment's own attempt list that has no resolution, and the already-settled / already-failed errors for a resolved one; verifyAttempt, which both stores call inside their write transaction before storing an attempt, admits an attempt only when payment.GetAttempt(attempt.AttemptID) finds none; the loaders used by the stores' entry points map a missing payment to ErrPaymentNotInitiated",
+		"SQLStore.SettleAttempt and FailAttempt record a resolution (queries keyed by the attempt index alone) only after checkAttemptResolvable succeeded for the ID of the payment whose status was gated and the same attempt ID; checkAttemptResolvable returns nil only for an attempt of that payment's own attempt list that has no resolution, and the already-settled / already-failed errors for a resolved one; verifyAttempt, which both stores call inside their write transaction before storing an attempt, admits an attempt only when payment.GetAttempt(attempt.AttemptID) finds none; the loaders used by the stores' entry points map a missing payment to ErrPaymentNotInitiated (fetchPaymentByHash: exactly one exit below errors.Is(err, sql.ErrNoRows), returning that sentinel; a row only when the query returned no error); checkAttemptResolvable answers a settled attempt with ErrAttemptAlreadySettled and a failed one with ErrAttemptAlreadyFailed; GetAttempt, called on the payment being verified, searches all of m.HTLCs for `htlc.AttemptID == id` and hands out that attempt",
 		"a resolution recorded for an attempt of another payment mutates a payment whose status was never checked; a duplicate attempt ID replaces an attempt whose amount is still in flight and the sum check forgets it; backends that answer an unknown payment differently break callers that test the sentinel error", 8,
 		func(o *an.Obl) {
 			chkID := pd + "checkAttemptResolvable"
@@ -602,6 +877,23 @@ func runC16(r *an.Run) {
 					}
 				}
 			}
+			// a resolved attempt is answered with the error that names its
+			// resolution
+			resTag := canonTerm(`^(HTLCAttemptResolutionType\()?\$elem\(.*FetchHtlcAttemptsForPayments\(.*\)\)\.ResolutionType\.Int32\)?$`)
+			for errName, st := range map[string]string{"ErrAttemptAlreadySettled": "HTLCAttemptResolutionSettled", "ErrAttemptAlreadyFailed": "HTLCAttemptResolutionFailed"} {
+				n := 0
+				for _, s := range ck.Returns() {
+					if an.Text(s.Node.(*ast.ReturnStmt).Results[0]) != errName {
+						continue
+					}
+					n++
+					guarded(o, ck, s, an.Cmp(resTag, an.EQ, an.PkgVar("payments/db", st), "the attempt's resolution type == "+st))
+					guarded(o, ck, s, an.CmpX(an.FieldPath(nil, "AttemptIndex"), an.EQ, an.Param(3), "attempt.AttemptIndex == attemptID"))
+				}
+				if n != 1 {
+					o.FailAt(chkID+"#"+errName, ck.Where(ck.Body.Pos()), "checkAttemptResolvable has %d exits with %s, expected one", n, errName)
+				}
+			}
 			for _, s := range ck.Calls(an.CalleeNamed("FetchHtlcAttemptsForPayments"), false) {
 				if t := ck.Canon(callArg(s, 1)); t != "[]int64{$p2}" {
 					o.FailAt(chkID+"#payment", s.Where(), "the attempts are fetched for %s, expected the given payment only", t)
@@ -610,9 +902,16 @@ func runC16(r *an.Run) {
 			// duplicate attempt IDs
 			va := p.Func(pd + "verifyAttempt")
 			ga := va.Calls(an.CalleeIs(pd+"MPPayment.GetAttempt"), false)
-			if need(o, va, "payment.GetAttempt", ga, 1) {
+			if needExactly(o, va, "payment.GetAttempt", ga, 1) {
 				if a := va.ArgCanon(ga[0]); a[0] != "$p1.AttemptID" {
 					o.FailAt(va.ID+"#duplicate-id-arg", ga[0].Where(), "the duplicate check looks up %s", a[0])
+				}
+				if sel, ok := ast.Unparen(ga[0].Node.(*ast.CallExpr).Fun).(*ast.SelectorExpr); !ok || va.Canon(sel.X) != "$p0" {
+					o.FailAt(va.ID+"#duplicate-id-payment", ga[0].Where(), "the duplicate check looks the attempt up on %s, expected the payment being verified", an.Text(ga[0].Node.(*ast.CallExpr).Fun))
+				}
+				// the `err` tested is the lookup's
+				if eo := c15LhsObj(va, ga[0], 1); eo == nil {
+					o.FailAt(va.ID+"#duplicate-id-result", ga[0].Where(), "the result of the duplicate lookup is discarded")
 				}
 				for _, s := range va.Returns() {
 					if !an.IsNilIdent(va.Info(), s.Node.(*ast.ReturnStmt).Results[0]) {
@@ -621,6 +920,75 @@ func runC16(r *an.Run) {
 					// success only when the lookup found no attempt under that ID
 					guarded(o, va, s, an.IsNil(an.LocalNamed("err"), false, "payment.GetAttempt(attempt.AttemptID) found nothing"))
 				}
+			}
+			// GetAttempt searches every attempt of the payment for the ID
+			gat := p.Func(pd + "MPPayment.GetAttempt")
+			var gaParams []string
+			for _, pv := range gat.Params(false) {
+				gaParams = append(gaParams, pv.Name())
+			}
+			notReassigned(o, gat, gaParams...)
+			nFound := 0
+			for _, s := range gat.Returns() {
+				rs := s.Node.(*ast.ReturnStmt)
+				if len(rs.Results) != 2 {
+					continue
+				}
+				if an.IsNilIdent(gat.Info(), rs.Results[0]) {
+					// "not found": only after every attempt was looked at
+					if an.IsNilIdent(gat.Info(), rs.Results[1]) {
+						o.FailAt(gat.ID+"#not-found-nil", s.Where(), "GetAttempt reports 'not found' without an error")
+					}
+					continue
+				}
+				nFound++
+				c := gat.Canon(rs.Results[0])
+				o.Site("GetAttempt finds %s at %s", c, s.Where())
+				if c != "&$elem($recv.HTLCs)" {
+					o.FailAt(gat.ID+"#found", s.Where(), "GetAttempt hands out %s, expected an attempt of the payment's own list m.HTLCs", c)
+				}
+				guarded(o, gat, s, an.CmpX(canonTerm(`^\$elem\(\$recv\.HTLCs\)\.AttemptID$`), an.EQ, an.Param(0), "htlc.AttemptID == id"))
+			}
+			if nFound != 1 {
+				o.FailAt(gat.ID+"#found-exits", gat.Where(gat.Body.Pos()), "GetAttempt has %d exits with an attempt, expected one", nFound)
+			}
+			if hds := c15RangeHeads(gat, `.`); len(hds) != 1 || gat.Canon(hds[0].Node.(*ast.RangeStmt).X) != "$recv.HTLCs" {
+				o.FailAt(gat.ID+"#search-loop", gat.Where(gat.Body.Pos()), "GetAttempt is expected to search one loop over m.HTLCs")
+			} else {
+				c15LoopLeftOnlyBy(o, gat, hds[0], "attempts", func(rs *ast.ReturnStmt) bool {
+					return len(rs.Results) == 2 && gat.Canon(rs.Results[0]) == "&$elem($recv.HTLCs)"
+				})
+			}
+			// fetchPaymentByHash maps "no such row" to the sentinel and hands
+			// out a row only when the query succeeded
+			fb := p.Func(pd + "fetchPaymentByHash")
+			noRows := an.CallTo("errors.Is", nil, nil, an.PkgVar("database/sql", "ErrNoRows"))
+			nSent := 0
+			for _, s := range fb.Returns() {
+				rs := s.Node.(*ast.ReturnStmt)
+				if len(rs.Results) != 2 {
+					continue
+				}
+				isNo, _ := fb.Guarded(s, an.Truth(noRows, true, ""))
+				c := fb.Canon(rs.Results[1])
+				o.Site("fetchPaymentByHash returns error %s (below errors.Is(err, sql.ErrNoRows): %v)", c, isNo)
+				switch {
+				case isNo:
+					nSent++
+					if c != pd+"ErrPaymentNotInitiated" {
+						o.FailAt(fb.ID+"#no-rows", s.Where(), "fetchPaymentByHash answers a missing row with %s, expected ErrPaymentNotInitiated", c)
+					}
+				case c == "nil":
+					guarded(o, fb, s, an.Truth(noRows, false, "!errors.Is(err, sql.ErrNoRows)"))
+					// (the flow graph does not correlate the two errors.Is tests:
+					// "no error, or the error was ErrNoRows" and "not ErrNoRows"
+					// together are "no error")
+					guarded(o, fb, s, an.AnyOf("the query returned no error (or ErrNoRows, excluded by the other guard)",
+						an.IsNil(an.ResultOf(an.CallNamed("FetchPayment", nil), 1), true, ""), an.Truth(noRows, true, "")))
+				}
+			}
+			if nSent != 1 {
+				o.FailAt(fb.ID+"#no-rows-exit", fb.Where(fb.Body.Pos()), "fetchPaymentByHash has %d exits below errors.Is(err, sql.ErrNoRows), expected one", nSent)
 			}
 			// unknown payments
 			for _, e := range []string{"SQLStore.RegisterAttempt", "SQLStore.SettleAttempt", "SQLStore.FailAttempt", "SQLStore.Fail", "SQLStore.DeletePayment", "SQLStore.DeleteFailedAttempts"} {
